@@ -143,6 +143,10 @@ def derivative( func, x0, dx=1.0, n=1, args=(), order=3 ):
             weights = centralDiffWeights( order, 2 )
     else:
         weights = centralDiffWeights( order, n )
+    # The abscissae are formed in double precision whatever the type of x0 and dx 
+    # ( a float32 x0 would keep x0 + k * dx in single precision )
+    x0 = np.array( x0, dtype=float )[ () ]
+    dx = float( dx )
     val = 0.0
     ho = order >> 1
     for k in range( order ):
